@@ -62,6 +62,8 @@ def buffer_state(ex, mod):
     selfo.slots[o_base] = Ptr(buf, bv(0, 64))
     selfo.slots[o_end] = Ptr(buf, cap)
     selfo.slots[o_pos] = Ptr(buf, pos)
+    for k in range(8):  # the bytes at the read position, so that counterexamples can be replayed
+        ex.inputs["buf_b%d" % k] = z3.Select(buf.arr, pos + bv(k, 64))
     return {"cap": cap, "pos": pos, "buf": buf, "self": selfo, "offs": (o_base, o_end, o_pos)}
 
 
@@ -220,14 +222,14 @@ def run_under_asan(script, timeout=60):
     if d is None:
         return None, "ASan build failed"
     rt = subprocess.run(["clang", "-print-file-name=libclang_rt.asan-x86_64.so"], stdout=subprocess.PIPE).stdout.decode().strip()
-    env = dict(os.environ, LD_PRELOAD=rt + ":" + os.path.join(d, "interpose.so"), PYTHONMALLOC="malloc", ASAN_OPTIONS="detect_leaks=0:abort_on_error=0:exitcode=97", UBSAN_OPTIONS="print_stacktrace=0", PYTHONPATH=d)
+    env = dict(os.environ, LD_PRELOAD=rt + ":" + os.path.join(d, "interpose.so"), PYTHONMALLOC="malloc", ASAN_OPTIONS="detect_leaks=0:abort_on_error=0:exitcode=97:allocator_may_return_null=1", UBSAN_OPTIONS="print_stacktrace=0", PYTHONPATH=d)
     try:
         r = subprocess.run(["/venv/bin/python", "-c", script], env=env, stdout=subprocess.PIPE, stderr=subprocess.PIPE, timeout=timeout)
     except subprocess.TimeoutExpired:
         return None, "timeout"
     err = r.stderr.decode(errors="replace")
     out = r.stdout.decode(errors="replace")
-    if "AddressSanitizer" in err:
+    if "AddressSanitizer" in err and "out-of-memory" not in err and "exceeds maximum supported size" not in err:
         line = [l for l in err.splitlines() if "ERROR: AddressSanitizer" in l or l.startswith("SUMMARY")]
         return True, " | ".join(line)[:400]
     if "runtime error:" in err:
